@@ -9,7 +9,7 @@ META = dict(
     rule="operation sequences over the alphabet of harness/raglib.py (append 0/1/3 rows, list, "
          "other dtype, bad atom, iterappend of nothing / 2 items / a failing item, truncate "
          "-1/0/1/2/too large/non-int, reopen, mode, metadata) from create_raggedarray and "
-         "asraggedarray starts: bounded-exhaustive up to a fixed depth + random longer ones, x atom "
+         "asraggedarray starts: bounded-exhaustive up to depth 2 (thorough tier: depth 3 sampled) + random longer ones, x atom "
          "{(), (2,), (1,), (2,3), (2,1)} x 13 value types x 2 byte orders x 7 index types x subarray "
          "lengths incl. 0; every ra[k] for k in {0,-1,n-1,n,-n,-n-1,1, 1.5, np.int64} and four "
          "iter_arrays parameterisations are read after every step through the live and a fresh "
@@ -37,14 +37,15 @@ def gen(ctx):
     for sl in starts:
         for n in range(1, L + 1):
             for letters in itertools.product(RCOMPACT, repeat=n):
-                if ctx.quick and n == 2 and (ti % 3):
-                    ti += 1
+                if (ctx.quick and n == 2 and (ti % 3)) or (n == 3 and (ti % 4)):
+                    ti += 1         # (depth 3 is sampled: the alphabet has grown to 17 letters)
                     continue
                 nt = NUMTYPES[ti % 13]; bo = ('little', 'big')[(ti // 13) % 2]
                 atom = ATOMS[(ti // 7) % 5]; ity = INDEXTYPES[ti % 7]
                 ti += 1
                 cases.append(rhistory_case(r, nt, bo, atom, ity, sl, letters))
-    ctx.extra['exhaustive_depth'] = L
+    ctx.extra['exhaustive_depth'] = min(L, 2)
+    ctx.extra['depth_3'] = 'sampled, one sequence in 4' if L >= 3 else 'not run in this tier'
     for nt in NUMTYPES:
         for bo in ('little', 'big'):
             ity = r.choice(INDEXTYPES)
